@@ -37,5 +37,6 @@ def exact_steps(mn, mx, step):
 
 
 GRIDS = [(0.0, 14.0, 0.1), (0.0, 14.0, 0.05), (0.0, 0.3, 0.1), (2.0, 9.0, 0.25), (0.0, 14.0, 1.0), (1.5, 12.5, 0.5), (0.0, 14.0, 0.2),
-         (3.0, 3.0, 0.1), (-2.0, 16.0, 0.3), (0.0, 1.0, 0.01), (6.9, 7.1, 0.001), (0.0, 14.0, 0.7)]
-WINDOWS = [(0.0, 14.0, 1.0), (0.0, 14.0, 2.0), (2.0, 10.0, 0.5), (1.0, 13.0, 3.0), (0.0, 14.0, 0.1), (0.5, 13.5, 1.0), (4.0, 4.0, 1.0)]
+         (3.0, 3.0, 0.1), (-2.0, 16.0, 0.3), (0.0, 1.0, 0.01), (6.9, 7.1, 0.001), (0.0, 14.0, 0.7), (0.0, 14.0, 0.125)]
+WINDOWS = [(0.0, 14.0, 1.0), (0.0, 14.0, 2.0), (2.0, 10.0, 0.5), (1.0, 13.0, 3.0), (0.0, 14.0, 0.1), (0.5, 13.5, 1.0), (4.0, 4.0, 1.0),
+           (0.1, 0.7, 0.1), (0.3, 9.1, 0.2), (2.2, 7.9, 0.3), (0.1, 13.9, 0.6), (6.95, 7.05, 0.01), (0.0, 14.0, 0.125), (1.0, 5.0, 0.25)]
